@@ -23,9 +23,9 @@ RULE = ("one evaluation = one read (whole, or chunked with one k) of a generated
 BUDGET = {"quick": (6000, 40), "thorough": (90000, 900)}
 
 FORMAT_WEIGHTS = [(3, "bed3"), (3, "bed6"), (2, "bdg"), (2, "narrowpeak"), (2, "vcf"), (2, "sam"), (2, "gtf"),
-                  (3, "fasta2"), (2, "fastaw"), (4, "fastq")]
+                  (3, "fasta2"), (2, "fastaw"), (4, "fastq"), (2, "bed12")]
 
-NUMERIC_KINDS = ("int", "sint", "pos1", "float", "optint")
+NUMERIC_KINDS = ("int", "sint", "pos1", "float", "optint", "listint")
 
 
 def applicable_classes(fmt):
@@ -79,12 +79,20 @@ def generate(ctx):
         fname = cands[tape.draw(len(cands), "field")]
         fs_, fl = fsp[fname]
         off = fs_ + tape.draw(fl, "digit")
-        bad[off] = ord("x")
-        info.update({"field": fname, "offset": off})
+        # the foreign character: a plain letter, a letter that is "digit + 32" in ASCII ('Q' = '1' + 32), or for a
+        # decimal number a second decimal point
+        kind = dict(fmt.fields)[fname]
+        chars = ["x", "Q", "P"] + (["."] if (kind == "float" and b"." in data[fs_:fs_ + fl] and b"e" not in data[fs_:fs_ + fl]) else [])
+        ch = chars[tape.draw(len(chars), "badchar")]
+        if ch == "." and data[off:off + 1] == b".":
+            ch = "x"
+        bad[off] = ord(ch)
+        info.update({"field": fname, "offset": off, "char": ch})
     elif klass == "strand":
         fname = [f for f, k in fmt.fields if k == "strand"][0]
-        bad[fsp[fname][0]] = ord("x")
-        info["field"] = fname
+        ch = ["x", "K", "N", "M"][tape.draw(4, "badchar")]     # 'K' = '+' + 32, 'M' = '-' + 32, 'N' = '.' + 32
+        bad[fsp[fname][0]] = ord(ch)
+        info.update({"field": fname, "char": ch})
     elif klass == "columns_fewer":
         tabs = [i for i in range(start, end) if data[i:i + 1] == b"\t"]
         t = tabs[tape.draw(len(tabs), "tab")]
